@@ -155,3 +155,94 @@ def interp(ck):
         for t in notes:
             ck.note_drift("[extension Interp.tla] " + t)
     ck.extra["extension_interp_rules"] = n
+
+
+def apalache(ck, spec, init, inv, length, what, timeout=900):
+    """Run Apalache (symbolic, unbounded integers) on spec/<spec>.tla: `inv` must hold in all states reachable in
+    `length` steps from `init`.  A violated invariant is a failure of the SPECIFICATION (machinery), like a TLC law."""
+    import os
+    import shutil
+    import subprocess
+    import time
+    from harness import core
+    exe = shutil.which("apalache-mc") or "/opt/veriftools/apalache/bin/apalache-mc"
+    out = os.path.join(ck.tmp, "apalache")
+    t0 = time.time()
+    try:
+        r = subprocess.run([exe, "check", f"--init={init}", f"--inv={inv}", f"--length={length}", f"--out-dir={out}", "--run-dir=" + out,
+                            os.path.join(core.VERIF, "spec", spec + ".tla")], capture_output=True, text=True, timeout=timeout, cwd=ck.tmp)
+    except subprocess.TimeoutExpired:
+        raise core.MachineryError(f"Apalache timed out after {timeout}s on {what}")
+    txt = r.stdout + r.stderr
+    if "The outcome is: NoError" not in txt:
+        kind = "violated" if "The outcome is: Error" in txt else "failed"
+        raise core.MachineryError(f"Apalache {kind}: {what} ({spec}: init={init} inv={inv} length={length})\n{txt[-1500:]}")
+    ck.extra.setdefault("apalache_runs", []).append({"what": what, "spec": spec, "init": init, "inv": inv, "length": length, "outcome": "NoError", "wall_s": round(time.time() - t0, 1)})
+    shutil.rmtree(out, ignore_errors=True)
+
+
+def schedule_unbounded(ck):
+    """AdvScheduleInd.tla: IndInv is inductive for ALL n, batch sizes, epochs, max_iter and stop steps and implies the
+    step-count clause (part of IndInv) and the slice laws."""
+    apalache(ck, "AdvScheduleInd", "Init", "IndInv", 0, "unbounded schedule: Init => IndInv")
+    apalache(ck, "AdvScheduleInd", "IndInit", "IndInv", 1, "unbounded schedule: IndInv /\\ Next => IndInv'")
+    apalache(ck, "AdvScheduleInd", "IndInit", "SliceLaws", 0, "unbounded schedule: IndInv => SliceLaws")
+
+
+def _bootargs_one(ob):
+    import warnings
+    import fairlearn.metrics as fm
+    nbv = {"none": None, "0": 0, "-1": -1, "1": 1, "5": 5, "2.5": 2.5, "True": True}[ob["nb"]]
+    qsv = {"none": None, "[]": [], "[0.5]": [0.5], "[0.9,0.1]": [0.9, 0.1], "[0.0]": [0.0], "[1.0]": [1.0], "[1]": [1], "[0.5,1.5]": [0.5, 1.5]}[ob["qs"]]
+    tag = f"n_boot={ob['nb']} ci_quantiles={ob['qs']}"
+    notes = []
+    mf = None
+    with warnings.catch_warnings():
+        warnings.simplefilter("ignore")
+        for st in ob["hist"]:
+            if st["op"] == "construct":
+                try:
+                    mf = fm.MetricFrame(metrics={"sel": fm.selection_rate}, y_true=[0, 1, 1, 0, 1, 0], y_pred=[0, 1, 0, 0, 1, 1], sensitive_features=list("aabbab"),
+                                        n_boot=nbv, ci_quantiles=qsv, random_state=3)
+                    got = "constructed"
+                except ValueError as e:
+                    m = str(e)
+                    got = "need_both" if "Must specify both" in m else "bad_n_boot" if "n_boot be a positive integer" in m else "bad_quantile" if "ci_quantiles be floats" in m else "ValueError " + m[:60]
+                except TypeError:
+                    got = "bool_crash"
+                except Exception as e:
+                    got = f"{type(e).__name__} {str(e)[:60]}"
+                exp = "constructed" if st["answer"] in ("on", "off") else st["answer"]
+                if got != exp:
+                    return [f"bootargs {tag}: construction '{got}', BootArgs.tla says '{st['answer']}'"]
+                continue
+            try:
+                v = getattr(mf, st["op"])
+                v = v() if callable(v) else v
+                got, ln = ("list", len(v)) if isinstance(v, list) else (type(v).__name__, 0)
+            except ValueError as e:
+                got, ln = ("not_initialised" if "Could not compute confidence intervals" in str(e) else "ValueError " + str(e)[:60]), 0
+            except Exception as e:
+                got, ln = f"{type(e).__name__} {str(e)[:60]}", 0
+            if (got, ln) != (st["answer"], st["len"]):
+                notes.append(f"bootargs {tag}: {st['op']} answered {got} (len {ln}), BootArgs.tla says {st['answer']} (len {st['len']})")
+            elif got == "list" and st["op"] == "overall_ci" and ob["qs"] == "[0.9,0.1]":
+                if not (float(v[0]["sel"]) >= float(v[1]["sel"])):
+                    notes.append(f"bootargs {tag}: overall_ci entries are not in the order of the request (0.9 first)")
+    return notes
+
+
+def bootargs(ck):
+    laws = "".join(f"INVARIANT {x}\n" for x in ("OnNeedsBoth", "OffMeansNothingAsked", "RejectedIsFinal", "OneEntryPerQuantile"))
+    obs = ck.tlc("BootArgs", f"CONSTANTS Emit = TRUE\nSPECIFICATION Spec\n{laws}INVARIANT EmitInv\nCHECK_DEADLOCK FALSE\n",
+                 "extension: bootstrap argument rules and *_ci availability", workers=1, timeout=600).emitted
+    n = 0
+    out = {}
+    for ob, notes in zip(obs, pmap(_bootargs_one, obs, chunksize=8)):
+        n += 1
+        a = ob["hist"][0]["answer"]
+        out[a] = out.get(a, 0) + 1
+        for t in notes:
+            ck.note_drift("[extension BootArgs.tla] " + t)
+    ck.extra["extension_bootargs_histories"] = n
+    ck.extra["extension_bootargs_construction_outcomes"] = out
